@@ -47,6 +47,9 @@ ASSUMPTIONS = ["dyadic steps (1, 2, 250, 1/2, 1/4, 1/8): coordinates must equal 
                "the bracket is defined by the coordinates: axes are also given without a step attribute, with a stale one (subsampled with isel "
                "keeping attrs, coarser claim) and irregular with an explicit step attribute; likewise the range of an axis is that of its "
                "coordinates: axes are also given start/stop attributes wider than the coordinates (set_dim_attrs, a pass through extend_dim)",
+               "set_value_at_pos also runs on bool / uint8 / int16 / int32 / float32 arrays with Python and numpy scalars and rows of other dtypes: the "
+               "values are small whole numbers, so 'the value as the array's dtype represents it' is the value itself (non-zero for bool); "
+               "fractional values into integer arrays (numpy truncates) are not generated",
                "range constructors are also exercised in histories (construct, edit the result in place, construct again): the second "
                "result is judged by the same clauses",
                "a count is pinned only when (stop - start)/step is nominally whole; otherwise floor or ceil is accepted",
@@ -71,6 +74,7 @@ def step_of(case) -> float:
     return float(Fraction(case["s"][0], case["s"][1]))
 
 
+ARRAY_DTYPES = {"f8": np.float64, "f4": np.float32, "i4": np.int32, "i2": np.int16, "u1": np.uint8}
 DTYPES = {"f8": np.float64, "f4": np.float32, "i8": np.int64, "i4": np.int32}
 
 
@@ -231,7 +235,12 @@ def _set(case):
     a4s = [int(x * 4) for x in (SET_STARTS_INT if dt in ("i8", "i4") else SET_STARTS)]
     axes = {names[j]: make_axis(names[j], a4s[j], s, sh[j], dt, case.get("sa", [[1, 1]]), case.get("ir", 0)) for j in range(d)}
     total = int(np.prod(sh))
+    adt, vt = case.get("adt", "f8"), case.get("vt", "py_float" if case["vm"] == "scalar" else "arr_f8")
     data = np.arange(1, total + 1, dtype=float).reshape(sh)          # the array as set_value_at_pos will see it (dims = names)
+    if adt == "b1":
+        data = (data % 2 == 1)                                       # a boolean array: True at odd positions
+    elif adt != "f8":
+        data = data.astype(ARRAY_DTYPES[adt])
     # layout: built with its dims in the order tr, coordinates registered in the order reg (without dimension nc), then transposed
     base = np.ascontiguousarray(data.transpose([k - 1 for k in tr]))
     coords_reg = {names[k - 1]: axes[names[k - 1]] for k in reg if not (nc and nc[0] == k)}
@@ -253,11 +262,13 @@ def _set(case):
     if case.get("rev"):
         query = dict(reversed(list(query.items())))
     free = [sh[j] for j in range(d) if not case["q"][j]]
-    if case["vm"] == "scalar":
-        value, vflat = 100.0, [100]
+    if case["vm"] == "scalar":                                       # the value in the type the case names; vflat = its numeric value
+        value = {"py_int": 100, "py_float": 100.0, "py_bool": True, "np_f4": np.float32(100), "np_i8": np.int64(100), "np_u1": np.uint8(100)}[vt]
+        vflat = [_int(value)]
     else:
         nfree = int(np.prod(free))
-        value = (100.0 + np.arange(1, nfree + 1, dtype=float)).reshape(free)
+        f = np.arange(1, nfree + 1, dtype=float)
+        value = ((f % 2 == 1) if vt == "arr_b1" else (100.0 + f).astype({"arr_f8": np.float64, "arr_f4": np.float32, "arr_i4": np.int32}[vt])).reshape(free)
         vflat = [_int(x) for x in value.ravel()]
         if case.get("aslist"):
             value = value.tolist()
@@ -353,6 +364,8 @@ def random_cases(rng, tier):
                "sh": sh, "q": q, "vm": vm, "reg": perm(), "tr": perm(),
                "nc": [rng.choice(free)] if free and rng.random() < 0.3 else [],
                "rev": rng.random() < 0.5, "aslist": rng.random() < 0.3,
+               "adt": rng.choice(["f8", "f8", "f4", "i4", "i2", "u1", "b1"]),
+               "vt": rng.choice(["py_int", "py_float", "py_bool", "np_f4", "np_i8", "np_u1"] if vm == "scalar" else ["arr_f8", "arr_f4", "arr_i4", "arr_b1"]),
                **dict(zip(("sa", "ir"), rng.choice([([[1, 1]], 0)] * 3 + [([], 0), ([[1, 2]], 0), ([[1, 1]], 1), ([[2, 1]], 2)])))}
 
 
